@@ -76,7 +76,7 @@ struct CsdoRun : NodeEnv {
         if (completed && v.ok) { int now2 = w.tmrUsedActions(0); int expSlots = (int)appTimers.size(); for (int q = 0; q < nCsdo; q++) if (c[q].busy) expSlots++; if (now2 != expSlots) fail("csdo/timer-left-behind", std::to_string(now2) + " timer slots in use after a completion, " + std::to_string(expSlots) + " belong to application timers and running transfers"); }
     }
     // ---- the server actor: one client frame in, zero or one frame out
-    void serverStep(int n, uint32_t delay) {
+    void serverStep(int n, uint32_t delay, bool lag = false) {
         Client &x = c[n]; if (!x.pendingFrame) return; Frame f = x.pending; x.pendingFrame = false; x.step++;
         uint8_t cmd = f.d[0]; Frame r; r.id = rxId(n); r.dlc = 8; bool respond = true; bool terminal = false; Expect te = E_NONE; uint32_t tcode = 0;
         std::string ctx = " [client frame " + f.str() + ", step " + std::to_string(x.step) + "]";
@@ -113,7 +113,11 @@ struct CsdoRun : NodeEnv {
         if (!respond) return;
         if (delay) { uint32_t d = delay; if (x.tmoTicks && d >= x.tmoTicks) d = x.tmoTicks - 1; if (d) { size_t mk = w.mark(); w.tick(0, d); harvest(mk, "delay before the server's answer"); cov.hit("server-late-answer"); if (!x.busy || !v.ok) return; } }
         if (terminal || x.malformed) { x.exp = te; x.expCode = tcode; } else x.exp = x.malformed ? E_ANY : E_NONE;
-        size_t mk = w.mark(); uint8_t *bufp = x.buf; (void)bufp; w.rx(0, r); w.canproc(0); cov.frames_in++; safety(); harvest(mk, "server answer");
+        // lagged regime: the tick on which the time-out falls due is served (COTmrService) but not yet processed when the answer is handled;
+        // the answer is in time - the client refreshes or ends its time-out - and the deferred COTmrProcess must not report a time-out
+        bool lagged = false;
+        if (lag && x.tmoTicks && m != 4) { uint64_t due = x.lastTx + x.tmoTicks; if (due > now()) { uint64_t d = due - now(); if (d > 1) { size_t mk0 = w.mark(); w.tick(0, d - 1); harvest(mk0, "ticks before the lagged answer"); if (!x.busy || !v.ok) return; } w.cur = 0; w.isr(0); lagged = true; cov.hit("answer-between-tick-service-and-processing"); nontrivial = true; } }
+        size_t mk = w.mark(); uint8_t *bufp = x.buf; (void)bufp; w.rx(0, r); w.canproc(0); cov.frames_in++; if (lagged) w.process(0); safety(); harvest(mk, "server answer");
         if (!v.ok) return;
         if (m == 4) { x.exp = x.malformed ? E_ANY : E_NONE; return; }   // STOPPED: the SDO client does not see the answer; the transfer runs into its time-out
         if (x.busy && terminal && te != E_ANY) { fail(te == E_OK ? "csdo/no-completion-after-final-answer" : "csdo/no-completion-after-abort", std::string("the server's final answer ") + r.str() + " did not complete the transfer"); return; }
@@ -140,13 +144,15 @@ struct CsdoRun : NodeEnv {
         const std::string &k = o.k; size_t mk = w.mark();
         if (k == "req") request(o);
         else if (k == "step") serverStep((int)(o.arg(0) % nCsdo), (uint32_t)o.arg(1));
+        else if (k == "lagstep") serverStep((int)(o.arg(0) % nCsdo), 0, true);
         else if (k == "run") { int n = (int)(o.arg(0) % nCsdo); int guard = 400; while (v.ok && c[n].busy && c[n].pendingFrame && guard-- > 0) serverStep(n, 0); }
         else if (k == "tick") { w.tick(0, (uint64_t)o.arg(0)); harvest(mk, "tick"); }
         else if (k == "unsol") { int n = (int)(o.arg(0) % nCsdo); Frame r(rxId(n), 8, o.b); bool wasBusy = c[n].busy;
             // an abort that names another object is not an answer to this transfer (e.g. a late abort of an earlier one): an expedited transfer must go on unaffected
             bool foreignAbort = wasBusy && r.d[0] == 0x80 && (r.u16(1) != c[n].idx || r.d[3] != c[n].sub) && c[n].size <= 4 && !c[n].malformed;
             if (foreignAbort) { cov.hit("foreign-abort-during-expedited-transfer"); nontrivial = true; } else if (wasBusy) { c[n].malformed = true; c[n].exp = E_ANY; } w.rx(0, r); w.canproc(0); cov.frames_in++; harvest(mk, "unsolicited server frame"); cov.hit(wasBusy ? "unsolicited-while-busy" : "unsolicited-while-idle"); }
-        else if (k == "apptmr") { w.cur = 0; if (o.arg(0)) { int16_t id = COTmrCreate(&N()->Tmr, (uint32_t)o.arg(1), (uint32_t)o.arg(2) + 1, appCb, nullptr); if (id >= 0) { appTimers.push_back(id); for (auto &x : c) x.slotsBefore++; } } else if (!appTimers.empty()) { (void)COTmrDelete(&N()->Tmr, (int16_t)appTimers.back()); appTimers.pop_back(); for (auto &x : c) x.slotsBefore--; } }
+        else if (k == "apptmr") { w.cur = 0; if (o.arg(0) && appTimers.size() >= 5) return;   /* capacity is assumed by the property: 8 slots = 5 application timers + 2 clients + 1 spare */
+            if (o.arg(0)) { int16_t id = COTmrCreate(&N()->Tmr, (uint32_t)o.arg(1), (uint32_t)o.arg(2) + 1, appCb, nullptr); if (id >= 0) { appTimers.push_back(id); for (auto &x : c) x.slotsBefore++; } } else if (!appTimers.empty()) { (void)COTmrDelete(&N()->Tmr, (int16_t)appTimers.back()); appTimers.pop_back(); for (auto &x : c) x.slotsBefore--; } }
         else if (k == "nmt") { uint8_t cs = (uint8_t)o.arg(0); for (auto &x : c) if (x.busy && (cs == 129 || cs == 130)) { x.exp = E_ANY; cov.hit("reset-while-busy"); nontrivial = true; } w.rx(0, Frame(0, 2, {cs, 0})); w.canproc(0); harvest(mk, "NMT command");
             if ((cs == 129 || cs == 130) && v.ok) { for (int n = 0; n < nCsdo; n++) if (c[n].busy) { fail("csdo/busy-survives-reset", "the transfer in progress was neither completed nor aborted by the NMT reset (no completion callback)"); return; } } if (cs == 2) m = 4; else if (cs == 1) m = 3; else m = 2; }
         safety();
@@ -176,7 +182,7 @@ Plan gen_csdo(Rng &r, bool thorough) {
         p.ops.push_back(Op("req", {n, up ? 1 : 0, size, tmo, beh, k, (int64_t)(r.below(4) | r.below(3) << 8), (int64_t)r.below(1000), r.pick<int64_t>({0, 0x06020000, 0x08000000, 0x05040001, 1, 2, 0x60, 0x41, 0x00, 0xFF})}));
         int mode = (int)r.below(10);
         if (mode < 5) p.ops.push_back(Op("run", {n}));
-        else if (mode < 8) { int steps = (int)r.range(0, 12); for (int i = 0; i < steps; i++) { int cc = (int)r.below(8); if (cc < 5) p.ops.push_back(Op("step", {n, r.chance(1, 3) ? r.range(1, (int64_t)tmo * f / 1000 + 2) : 0})); else if (cc == 5) p.ops.push_back(Op("tick", {r.range(1, 5)})); else if (cc == 6) p.ops.push_back(Op("req", {n, (int64_t)r.below(2), r.range(1, 20), 10, 0, 0, 0, 0, 0})); else p.ops.push_back(Op("req", {1 - n, (int64_t)r.below(2), r.range(1, 40), 50, 0, 0, 1, 3, 0})); } if (r.chance(1, 2)) p.ops.push_back(Op("run", {n})); }
+        else if (mode < 8) { int steps = (int)r.range(0, 12); for (int i = 0; i < steps; i++) { int cc = (int)r.below(8); if (cc < 5 && r.chance(1, 5)) { if (r.chance(1, 2)) p.ops.push_back(Op("apptmr", {1, r.range(1, 300), r.range(0, 20)})); p.ops.push_back(Op("lagstep", {n})); } else if (cc < 5) p.ops.push_back(Op("step", {n, r.chance(1, 3) ? r.range(1, (int64_t)tmo * f / 1000 + 2) : 0})); else if (cc == 5) p.ops.push_back(Op("tick", {r.range(1, 5)})); else if (cc == 6) p.ops.push_back(Op("req", {n, (int64_t)r.below(2), r.range(1, 20), 10, 0, 0, 0, 0, 0})); else p.ops.push_back(Op("req", {1 - n, (int64_t)r.below(2), r.range(1, 40), 50, 0, 0, 1, 3, 0})); } if (r.chance(1, 2)) p.ops.push_back(Op("run", {n})); }
         else if (mode == 8) { int steps = (int)r.range(0, 4); for (int i = 0; i < steps; i++) p.ops.push_back(Op("step", {n, 0})); p.ops.push_back(Op("nmt", {r.pick<int64_t>({130, 129, 130, 2, 1})})); }
         else { std::vector<uint8_t> b; for (int j = 0; j < 8; j++) b.push_back(r.byte()); if (r.chance(1, 2)) b[0] = r.pick<uint8_t>({0x80, 0x80, 0x60, 0x43, 0x41, 0x00, 0x20}); if (b[0] == 0x80 && r.chance(1, 2)) { b[1] = 0x55; b[2] = 0x21; b[3] = 9; } p.ops.push_back(Op("unsol", {n}, b)); p.ops.push_back(Op("run", {n})); }
         // idle gap around the previous transfer's time-out, then possibly the next transfer
